@@ -127,6 +127,9 @@ def evaluate(job):
         shutil.rmtree(tmp, ignore_errors=True)
 
 
+ONLY = set()
+
+
 def main(argv):
     files = None
     mx = None
@@ -138,15 +141,23 @@ def main(argv):
             mx = int(argv[i + 1])
         if a == "--jobs":
             jobs = int(argv[i + 1])
-        if a == "--survivors":
+        if a in ("--survivors", "--only-unflagged"):
             global KNOWN_SURVIVORS
+        if a == "--survivors":
             d = json.load(open(argv[i + 1]))
             KNOWN_SURVIVORS = {r["desc"] for r in d["unflagged"] + d["flagged"]}
+        if a == "--only-unflagged":
+            # re-run the checks on the survivors no check reported in an earlier campaign (everything else is skipped)
+            d = json.load(open(argv[i + 1]))
+            ONLY.update(r["desc"] for r in d["unflagged"])
+            KNOWN_SURVIVORS = set(ONLY)
     work = []
     for p in sorted((REPO / "src" / "basictdf").glob("*.py")):
         if p.name == "__init__.py" or (files and p.name not in files):
             continue
         for desc, code in mutants_of(p):
+            if ONLY and desc not in ONLY:
+                continue
             work.append((p.name, desc, code))
     if mx:
         import random
